@@ -226,7 +226,7 @@ func panicText(i *interpreter, p targetPanic) string {
 		return v
 	case iface:
 		if v.t != nil {
-			if m := i.prog.LookupMethod(v.t, nil, "Error"); m != nil {
+			if m := findMethod(i, v.t, "Error"); m != nil {
 				func() {
 					defer func() { recover() }()
 					r := call(i, nil, token.NoPos, m, []value{v.v})
@@ -245,4 +245,13 @@ func panicText(i *interpreter, p targetPanic) string {
 		return fmt.Sprintf("panic(%v)", v.t)
 	}
 	return fmt.Sprintf("panic(%T)", p.v)
+}
+
+// findMethod returns the exported method name of type t, or nil.
+func findMethod(i *interpreter, t types.Type, name string) *ssa.Function {
+	sel := i.prog.MethodSets.MethodSet(t).Lookup(nil, name)
+	if sel == nil {
+		return nil
+	}
+	return i.prog.MethodValue(sel)
 }
